@@ -286,7 +286,26 @@ class _Interp:
 
             visit_ListComp = visit_SetComp = visit_GeneratorExp = visit_DictComp = _comp
 
+            def visit_Subscript(self, n):
+                # a slice of a sequence value (`items[:1]`, `items[1:]`): taken on the value
+                if isinstance(n.slice, ast.Slice) and isinstance(n.ctx, ast.Load):
+                    seq = interp.ev(n.value, env)
+                    lo, hi, st = (None if b_ is None else interp.ev(b_, env) for b_ in (n.slice.lower, n.slice.upper, n.slice.step))
+                    if not isinstance(seq, (list, tuple, str)) or not all(b_ is None or (isinstance(b_, int) and not isinstance(b_, bool)) for b_ in (lo, hi, st)) or st == 0:
+                        raise minieval.CannotEval(f"slice {u(n)[:60]}")
+                    return ast.Constant(value=seq[slice(lo, hi, st)])
+                return self.generic_visit(n)
+
             def visit_Call(self, n):
+                if isinstance(n.func, ast.Name) and n.func.id == "getattr" and "getattr" not in env and 2 <= len(n.args) <= 3 and not n.keywords and not any(isinstance(a_, ast.Starred) for a_ in n.args):
+                    # an attribute of a Record the rule supplies, selected by a computed name (`getattr(race, attribute)` in a table-driven loop)
+                    obj, attr = interp.ev(n.args[0], env), interp.ev(n.args[1], env)
+                    if isinstance(obj, minieval.Record) and isinstance(attr, str):
+                        if attr in obj.fields:
+                            return ast.Constant(value=obj.fields[attr])
+                        if len(n.args) == 3:
+                            return ast.Constant(value=interp.ev(n.args[2], env))
+                    raise minieval.CannotEval(f"call {u(n)[:60]}")
                 n = self.generic_visit(n)
                 f = n.func
                 fv = f.value if isinstance(f, ast.Constant) else (env.get(f.id) if isinstance(f, ast.Name) else None)
@@ -477,6 +496,52 @@ class _Rec(dict):
         return True
 
 
+class _Elem(dict):
+    """one element of a list-valued statistic (an ML job, a transform) of a stored race, standing for ENTITY `ent`: every member k reads as '<ent>:<k>', so the same
+    member of the same entity has the same value in both races (its id matches, whichever member the id is) and every value tells which entity it was read from."""
+
+    def __init__(self, ent):
+        super().__init__()
+        self.ent = ent
+
+    def __missing__(self, k):
+        return f"{self.ent}:{k}"
+
+    def get(self, k, default=None):
+        return self[k]
+
+    def __contains__(self, k):
+        return True
+
+    def __bool__(self):
+        return True
+
+    def __eq__(self, other):
+        return self is other
+
+    def __ne__(self, other):
+        return self is not other
+
+    __hash__ = object.__hash__
+
+    def __repr__(self):
+        return f"<{self.ent}>"
+
+
+class _AnyFields(dict):
+    """the fields of a Record that stands for a stored race in which EVERY list-valued statistic holds the same representative list."""
+
+    def __init__(self, value):
+        super().__init__()
+        self.value = value
+
+    def __contains__(self, k):
+        return True
+
+    def __missing__(self, k):
+        return self.value
+
+
 def run(chk):
     repo = chk.repo
     rp = repo.module(_R)
@@ -489,7 +554,7 @@ def run(chk):
         "and coloured by direction exactly when its printed value is non-zero, relative and absolute cell agree in sign and colour, swapping flips both, self comparison is an unsigned "
         "neutral zero, the plain cell is the rich cell's text; plain flag read only for colour selection; same formatter for file (plain) and console (rich); "
         "a line only when both values are not None; tests on compared scalar values decide alike for 0 and non-zero values (evaluated, not read off the spelling); optional members of a "
-        "stored task result (throughput mean, processing time) are read with a default in both races (reads evaluated on a record without them). Roles are derived from data flow and "
+        "stored task result (throughput mean, processing time) are read with a default in both races (reads evaluated on a record without them); the methods that pair two list-valued statistics by id are evaluated on lists that hold the common elements in different orders (every common element gets its lines, paired with itself; not evaluable: no early exit of the search except under the match); operands selected from a race's mapping by `.get` are evaluated on the empty mapping (None, never an invented default). Roles are derived from data flow and "
         "positions, not from names: parameters of _line by position, the mode attribute as the one _metrics_table assigns from its flag parameter, races by dataflow from report() along the "
         "call graph of the reporter (direct calls, nested helpers, aliases, tuples / lists of bound methods walked by a loop or comprehension, incl. lists grown in place by append / insert / extend / += behind a condition; pairs unpacked from a generator over both races or from a helper that returns a pair), "
         "the writer's data parameters by which table reaches them. A construct inside an extracted helper stands for one instance per call of the helper (label, flag, iterated list, "
@@ -1589,7 +1654,7 @@ def run(chk):
             chk.ob("O20.4", "same formatter: rich -> console, plain -> file", ok and got == (p_plain, p_rich), ws, f"console <- {u(to_console[0])}; file <- {u(to_file[0])}")
 
     # ---- O20.5 only common metrics --------------------------------------------------------------------------------------------------------------------------------
-    chk.rule("O20.5", "a line is emitted only when both values are not None (4-row table); tasks are the intersection; guards on scalar metric values use `is None`, never truthiness (0 is a value); optional members of a stored task result (throughput mean, processing time) are read with a default in both races", 6,
+    chk.rule("O20.5", "a line is emitted only when both values are not None (4-row table); tasks are the intersection; guards on scalar metric values use `is None`, never truthiness (0 is a value); optional members of a stored task result (throughput mean, processing time) are read with a default in both races; every element that both races' list-valued statistics contain gets its lines wherever it is stored in the lists (the pairing evaluated on lists in different orders); an operand selected from a race's mapping by a tolerant read is None on a mapping without the member", 6,
              "a metric missing in one race is printed (crash on None arithmetic), or a zero-valued metric present in both races is dropped / breaks swap symmetry")
     row_guard = guards(row[0], path_sensitive=True) if row else []
 
@@ -2177,6 +2242,7 @@ def run(chk):
         return m_["k"] if m_ else None
 
     n_pair = 0
+    paired = {}  # id(method) -> (method, [(outer iteration, inner iteration, match test)]) of every located pairing (the index shape: inner iteration = the generator of the index)
     for name, f in cm.items():
         its = iterations(f)
         scope = {id(it_[0]): {id(x) for s_ in it_[3] for x in ast.walk(s_)} for it_ in its}
@@ -2223,11 +2289,13 @@ def run(chk):
                     inst = f"{name}: `{u(inner_iter)}` paired with the current element of `{u(outer_iter)}`"
                     if elem_key(other, outer_tg.id) is not None:
                         n_pair += weight(inner_n, inner_iter)
+                        paired.setdefault(id(f), (f, []))[1].append((outer_n, inner_n, t))
                         chk.ob("O20.2", inst, k_in == elem_key(other, outer_tg.id), t, u(t))
                         continue
                     if not isinstance(other, ast.Name):
                         continue
                     n_pair += weight(inner_n, inner_iter)
+                    paired.setdefault(id(f), (f, []))[1].append((outer_n, inner_n, t))
                     idv = other.id
                     got = bound_from(idv, outer_n, outer_tg.id, inner_n.lineno if hasattr(inner_n, "lineno") else source.enclosing_stmt(inner_n).lineno)
                     if got is None:
@@ -2259,6 +2327,7 @@ def run(chk):
                         continue
                     inst = f"{name}: `{u(d_.generators[0].iter)}` (indexed by `{k_in}`) paired with the current element of `{u(outer_iter)}`"
                     n_pair += weight(d_.generators[0], d_.generators[0].iter)
+                    paired.setdefault(id(f), (f, []))[1].append((outer_n, d_.generators[0], None))
                     got = elem_key(key_e, outer_tg.id) if not isinstance(key_e, ast.Name) else bound_from(key_e.id, outer_n, outer_tg.id, x.lineno)
                     if got is None:
                         chk.unknown("O20.2", f"{inst}: where the key `{u(key_e)}` of the lookup comes from cannot be derived", x)
@@ -2268,6 +2337,156 @@ def run(chk):
                     else:
                         chk.ob("O20.2", inst, got == k_in, x, f"`{u(x)}`" + ("" if got == k_in else f": looked up by `[{got}]` in an index built on `[{k_in}]`"), key=f"{_R}:ComparisonReporter.{name}:pairing:{u(outer_iter)}")
     located(n_pair >= 5, "O20.2", "id-paired statistics located", rep, f"{n_pair} pairing test(s)")
+    # every element (id) BOTH lists contain gets its lines - wherever it is stored in the two lists -, paired with ITSELF, and every such element the same number of lines.
+    # Decided on VALUES: each method that pairs two list-valued statistics is evaluated (its helpers interpreted with it; the line constructor replaced by a recorder of its
+    # operands: when _line emits is the 4-row table above) on two races whose lists hold three common entities in DIFFERENT ORDER (the match is the contender's 3rd, 4th and 1st
+    # element), one entity only the baseline and one only the contender has - and with the two lists exchanged. A search that stops early (a `break` / `return` that is not
+    # under the match), looks at a slice, or pairs by position loses a common element or pairs two different ones. Where the method cannot be evaluated, the exits of the two
+    # iterations are read off the control flow instead: the inner search is left early only where the match test held, the outer iteration is never left early.
+    stub_line = ast.parse(f"def {line.name}({ast.unparse(line.args)}):\n    return ['\\x00row', {P_METRIC}, {P_TASK}, {P_BASE}, {P_CONT}] if {P_BASE} is not None and {P_CONT} is not None else []").body[0]
+    ORDERS = ((("e1", "e2", "e5", "e3"), ("e3", "e4", "e1", "e2")), (("e3", "e4", "e1", "e2"), ("e1", "e2", "e5", "e3")))
+    COMMON = ("e1", "e2", "e3")
+
+    def stub_rows(v, out):
+        if isinstance(v, (list, tuple)):
+            if len(v) == 5 and isinstance(v[0], str) and v[0] == "\x00row":
+                out.append(v)
+            else:
+                for x in v:
+                    stub_rows(x, out)
+        return out
+
+    def loop_exits(loop_node):
+        """(node, kind) of the statements that leave a `for` statement early: its own breaks, and every return / raise in its body (nested functions not entered)"""
+        out = []
+
+        def rec(stmts, own):
+            for s_ in stmts:
+                for x in source.walk_local(s_):
+                    if isinstance(x, (ast.Return, ast.Raise)):
+                        out.append((x, "return" if isinstance(x, ast.Return) else "raise"))
+                    elif isinstance(x, ast.Break) and own and source.enclosing(x, (ast.For, ast.While, ast.AsyncFor)) is loop_node:
+                        out.append((x, "break"))
+
+        rec(loop_node.body, True)
+        return out
+
+    def under_match(x, t):
+        return t is not None and any(pol and any(c_ is t for c_ in conjuncts(test_)) for test_, pol in guards(x, path_sensitive=True))
+
+    for f, prs in paired.values():
+        ps = own_params(f)
+        side = {p_: next(iter(r_)) for p_ in ps for r_ in [roles.param_roles.get((f.name, p_)) or set()] if r_ in ({"B"}, {"C"})}
+        is_race = {p_: any((isinstance(x, ast.Attribute) and isinstance(x.value, ast.Name) and x.value.id == p_) or
+                           (isinstance(x, ast.Call) and dotted(x.func) == "getattr" and x.args and isinstance(x.args[0], ast.Name) and x.args[0].id == p_) for x in ast.walk(f)) for p_ in side}
+        inst = f"{f.name}: every element that both races' lists contain gets its lines (paired with itself), wherever it is stored in the lists"
+        k_ = f"{_R}:ComparisonReporter.{f.name}:paired-exhaustive"
+        why_not, bad, n_rows = None, [], 0
+        if sorted(set(side.values())) != ["B", "C"] or f.args.vararg or f.args.kwarg:
+            why_not = "the parameters that carry the two races (or their lists) are not derived"
+        for lb, lc in ORDERS if why_not is None else ():
+            lists = {"B": [_Elem(e_) for e_ in lb], "C": [_Elem(e_) for e_ in lc]}
+            vals = []
+            for p_ in ps:
+                if p_ not in side:
+                    vals.append(f"<{p_}>")
+                elif is_race[p_]:
+                    rec_ = minieval.Record()
+                    rec_.fields = _AnyFields(lists[side[p_]])
+                    vals.append(rec_)
+                else:
+                    vals.append(lists[side[p_]])
+            it = _Interp(dict(cm, **{line.name: stub_line}), mod_funcs)
+            try:
+                r = it.call(f, ([] if _is_static(f) else [minieval.Record(**{FLAG: False})]) + vals, {}, {})
+            except (Unsupported, UnknownAtom, minieval.CannotEval, TypeError, ValueError, AttributeError, KeyError, IndexError, ArithmeticError, RecursionError) as e:
+                why_not = f"{type(e).__name__}: {e}"
+                break
+            rows_ = stub_rows(r, [])
+            ents = []
+            for row_ in rows_:
+                be, ce = (c_.split(":", 1)[0] if isinstance(c_, str) and ":" in c_ and c_.split(":", 1)[0] in lb + lc else None for c_ in row_[3:5])
+                if be is None or ce is None:
+                    why_not = f"the operands {row_[3]!r} / {row_[4]!r} of a line are not members of an element of the lists"
+                    break
+                ents.append((be, ce))
+            if why_not is not None:
+                break
+            n_rows += len(rows_)
+            order = f"baseline list {list(lb)}, contender list {list(lc)}"
+            mixed = sorted({f"{be} with {ce}" for be, ce in ents if be != ce})
+            if mixed:
+                bad.append(f"{order}: a line compares element {mixed[0]}")
+            per = {e_: sum(1 for be, ce in ents if be == ce == e_) for e_ in COMMON}
+            if ents and len(set(per.values())) > 1:
+                bad.append(f"{order}: lines per common element {per} - " + ", ".join(e_ for e_ in COMMON if per[e_] < max(per.values())) + " (present in both races) is not compared")
+        if why_not is None and n_rows == 0:
+            why_not = "it yields no line at all for two races whose lists share three elements"
+        if why_not is None:
+            chk.ob("O20.5", inst, not bad, f, "; ".join(bad[:2])[:500] if bad else f"{n_rows} line(s) for 3 common elements in 2 orders", key=k_)
+            continue
+        # not evaluable: the exits of the located iterations, read off the control flow
+        verdicts, undecided = [], []
+        for outer_n, inner_n, t in prs:
+            for loop_, is_inner in ((inner_n, True), (outer_n, False)):
+                if not isinstance(loop_, ast.For):
+                    continue  # a comprehension has no early exit
+                for x, kind in loop_exits(loop_):
+                    if is_inner and kind == "break":
+                        verdicts.append((x, under_match(x, t), "the search through the inner list stops here before the element with the same id was seen"))
+                    elif is_inner and source.enclosing(x, (ast.For,)) is not loop_:
+                        continue  # judged with the loop it belongs to
+                    elif under_match(x, t) or not guards(x, stop=loop_, path_sensitive=True):
+                        verdicts.append((x, False, f"the {'whole method' if kind != 'break' else 'outer iteration'} is left here: the remaining elements of the lists are never compared"))
+                    else:
+                        undecided.append(x)
+        wrong = [(x, why) for x, ok_, why in verdicts if not ok_]
+        if wrong:
+            chk.ob("O20.5", inst, False, wrong[0][0], f"`{short(wrong[0][0], 40)}` (line {wrong[0][0].lineno}): {wrong[0][1]}", key=k_)
+        elif undecided or not any(isinstance(l_, ast.For) for o_, i_, _ in prs for l_ in (o_, i_)):
+            chk.unknown("O20.5", f"{inst}: the method cannot be evaluated on values ({why_not}) and " +
+                        (f"whether `{short(undecided[0], 40)}` leaves the iteration before every element was compared cannot be decided" if undecided else "its pairing is not a pair of nested loops"), undecided[0] if undecided else f)
+        else:
+            chk.ob("O20.5", inst, True, f, f"read off the control flow ({why_not}): no iteration of the pairing is left early except under the match test", key=k_)
+    # a TOLERANT read hands on None when the race lacks the member. An operand of a comparison line that is selected from a mapping a reporting method receives from one race
+    # (a parameter: the per-shard statistics - {} in a race without shard level statistics and in results of older versions -, the percentile record of a task) by a lookup that
+    # tolerates absence (`.get(...)`, with or without default, `... or <default>`) is evaluated on the EMPTY mapping: it must yield None, the only value _line reads as "this
+    # race does not contain the metric" (4-row table above). Any other value (`.get(k, 0)`, `.get(k) or 0`) is compared as if it were stored: an invented line, a difference in
+    # the regression / improvement colour for a metric one race does not have. A mandatory member (read by subscript) is not an instance; values a module-level function
+    # computes from the race (collated disk usage: a field an index does not have occupies 0 bytes) are outside this rule.
+    n_tol = 0
+    for f, c in sites:
+        b = bind_args(c, line)
+        g_ = source.enclosing_func(c) or f
+        gdefs = {k_: v_ for k_, v_ in local_defs(g_).items() if k_ not in params_of(g_)}
+        lab = label_text(b.get(P_METRIC)) or site_label.get(id(c)) or "?"
+        for side_, who in ((P_BASE, "baseline"), (P_CONT, "contender")):
+            e = b.get(side_)
+            if e is None:
+                continue
+            e = source.clone(source.inline_node(e, gdefs))
+            gets = [x for x in ast.walk(e) if isinstance(x, ast.Call) and isinstance(x.func, ast.Attribute) and x.func.attr == "get" and 1 <= len(x.args) <= 2 and not x.keywords]
+            if not gets:
+                continue
+            for x in gets:
+                x.args[0] = ast.Constant(value="\x00member")  # which member is looked up does not matter on the empty mapping
+            fn_ = free_names(e)
+            if len(fn_) != 1:
+                continue
+            r_ = next(iter(fn_))
+            if r_ not in own_params(g_) or assigned_in(g_, r_) or not ((roles.param_roles.get((g_.name, r_)) or set()) & {"B", "C"}) or \
+                    not any(isinstance(x.func.value, ast.Name) and x.func.value.id == r_ for x in gets):
+                continue
+            try:
+                val = _Interp().ev(e, {r_: {}})
+            except (Unsupported, UnknownAtom, minieval.CannotEval, TypeError, ValueError, AttributeError, KeyError, IndexError, ArithmeticError, RecursionError):
+                continue  # not a selection that tolerates absence (a mandatory member, a computation on the value)
+            n_tol += 1
+            chk.ob("O20.5", f"{g_.name}: '{lab}': the {who} operand `{short(b.get(side_), 60)}` is None when `{r_}` lacks the member", val is None, c,
+                   "" if val is None else f"`{short(source.inline_node(b.get(side_), gdefs), 70)}` yields {val!r} on a mapping without the member: the line is built from a value the {who} race does not contain "
+                   "(compared with the other race's value, coloured as a regression / improvement; with both races lacking it an invented line)",
+                   key=f"{_R}:ComparisonReporter.{g_.name}:tolerant-read:{who}:{lab}")
+    located(n_tol >= 4, "O20.5", "operands selected from a mapping by a tolerant read located", rep, f"{n_tol} operand(s)")
     # asymmetric None guards -> advisory
     for name, f in cm.items():
         for n in walk_body(f):
@@ -2910,4 +3129,74 @@ VARIANTS += [
     V("h4 section lists: the appended section is called separately with the races exchanged", "break", _R, _MT_BODY_RE,
       _section_lists().replace("        for t in baseline_stats.tasks():\n", "        late_sections = []\n        late_sections.append(self._report_disk_usage_stats_per_field)\n"
                                "        for late_section in late_sections:\n            metrics_table.extend(late_section(contender_stats, baseline_stats))\n        for t in baseline_stats.tasks():\n"), "O20.2", regex=True),
+]
+
+# ---- seeding round 5 (m14, m15): the pairing of list-valued statistics evaluated on lists in different orders; tolerant reads evaluated on the empty mapping ----
+_ML_MAX_TAIL = (
+    '                            "Max ML processing time", baseline["max"], contender["max"], job_name, unit, treat_increase_as_improvement=False\n'
+    "                        )\n                    )\n"
+)
+
+
+def _ml_loops(inner='contender_stats.ml_processing_time', test='contender["job"] == job_name', in_match="", after_match="", pre="", wrap_try=False):
+    """the ML pairing in its original shape (nested loops, four appends); in_match: statements after the appends under the match test, after_match: statements after the `if`
+    in the inner loop; pre: statements before the match test; wrap_try: the appends inside a try / finally (a statement kind the interpreter does not follow)"""
+    ind = " " * ((24 if wrap_try else 20) - (0 if test else 4))
+    appends = "".join(f'{ind}lines.append(self._line("{lab} ML processing time", baseline["{k}"], contender["{k}"], job_name, unit, treat_increase_as_improvement=False))\n'
+                      for lab, k in (("Min", "min"), ("Mean", "mean"), ("Median", "median"), ("Max", "max")))
+    if wrap_try:
+        appends = " " * 20 + "try:\n" + appends + " " * 20 + "finally:\n" + " " * 24 + 'self.logger.debug("compared ML job %s", job_name)\n'
+    return (
+        "    def _report_ml_processing_times(self, baseline_stats, contender_stats):\n        lines = []\n"
+        '        for baseline in baseline_stats.ml_processing_time:\n            job_name = baseline["job"]\n            unit = baseline["unit"]\n'
+        "            for contender in " + inner + ":\n" + pre + ("                if " + test + ":\n" if test else "") + appends + in_match + after_match + "        return lines\n\n"
+    )
+
+
+_SHARD_RE = r"    def _report_total_time_per_shard\(self, name, baseline_per_shard, contender_per_shard\):\n.*?(?=    def _report_total_count)"
+
+
+def _shard_generator(read="baseline_per_shard.get(stat)"):
+    return (
+        "    def _report_total_time_per_shard(self, name, baseline_per_shard, contender_per_shard):\n        unit = \"min\"\n        return self._join(\n            *(\n"
+        "                self._line(\n                    f\"{label} cumulative {name} across primary shard\",\n                    " + read + ",\n                    contender_per_shard.get(stat),\n"
+        "                    \"\",\n                    unit,\n                    treat_increase_as_improvement=False,\n                    formatter=convert.ms_to_minutes,\n                )\n"
+        '                for label, stat in (("Min", "min"), ("Median", "median"), ("Max", "max"))\n            )\n        )\n\n'
+    )
+
+
+_HELPER_TAIL = "                            treat_increase_as_improvement=treat_increase_as_improvement,\n                        )\n                    )\n"
+
+VARIANTS += [
+    # m14: every element both lists contain gets its lines, wherever it is stored
+    V("seed m14: `break` one level too far out - only the contender's first ML job is looked at", "break", _R, _ML_MAX_TAIL + "        return lines\n",
+      _ML_MAX_TAIL + "                # job names are unique, no need to look any further\n                break\n        return lines\n", "O20.5"),
+    V("s5 ML pairing: the method returns after the first matched job", "break", _R, _ML_MAX_TAIL + "        return lines\n", _ML_MAX_TAIL + "                    return lines\n        return lines\n", "O20.5"),
+    V("s5 ML pairing: only the first element of the contender's list is searched (slice)", "break", _R, "            for contender in contender_stats.ml_processing_time:\n",
+      "            for contender in contender_stats.ml_processing_time[:1]:\n", "O20.5"),
+    V("s5 ML pairing: the search gives up at the first job with another name (`else: break`)", "break", _R, _ML_RE, _ml_loops(after_match="                else:\n                    break\n"), "O20.5", regex=True),
+    V("s5 ML pairing: the outer loop is left after the first baseline job", "break", _R, _ML_RE, _ml_loops(after_match="            break\n"), "O20.5", regex=True),
+    [V("s5 b5 shape: the extracted transform helper stops searching at the first transform with another id", "break", _R, _TRANS_RE, _transform_helper(), "O20.5", regex=True),
+     V("", "break", _R, _HELPER_TAIL, _HELPER_TAIL + "                else:\n                    break\n")],
+    V("s5 ML pairing with a try statement (not evaluable) and the misplaced `break`: read off the control flow", "break", _R, _ML_RE,
+      _ml_loops(wrap_try=True, after_match="                break\n"), "O20.5", regex=True),
+    V("s5 ML pairing respelled: same shape, appends on one line each", "keep", _R, _ML_RE, _ml_loops(), regex=True),
+    V("s5 ML pairing: `break` UNDER the match (job names are unique)", "keep", _R, _ML_MAX_TAIL + "        return lines\n", _ML_MAX_TAIL + "                    break\n        return lines\n"),
+    V("s5 ML pairing: guard clause `continue` for the jobs with another name", "keep", _R, _ML_RE,
+      _ml_loops(pre='                if contender["job"] != job_name:\n                    continue\n', test=None), regex=True),
+    V("s5 ML pairing with a try statement (not evaluable), `break` under the match", "keep", _R, _ML_RE, _ml_loops(wrap_try=True, in_match="                    break\n"), regex=True),
+    # m15: a tolerant read hands on None when the race lacks the member
+    V("seed m15: per-shard statistics read with a default of 0", "break", _R, r'(baseline|contender)_per_shard\.get\("(min|median|max)"\)', r'\1_per_shard.get("\2", 0)', "O20.5", count=6, regex=True),
+    V("s5 per-shard: the contender's median falls back to 0 (`or 0`)", "break", _R, '                contender_per_shard.get("median"),\n', '                contender_per_shard.get("median") or 0,\n', "O20.5"),
+    V("s5 percentiles: the baseline's percentile read with a default of 0", "break", _R, "            baseline_value = baseline_values.get(metrics.encode_float_key(percentile))\n",
+      "            baseline_value = baseline_values.get(metrics.encode_float_key(percentile), 0)\n", "O20.5"),
+    V("s5 per-shard lines from a generator over (label, key): baseline read with a default of 0.0", "break", _R, _SHARD_RE, _shard_generator("baseline_per_shard.get(stat, 0.0)"), "O20.5", regex=True),
+    V("s5 per-shard: explicit None defaults", "keep", _R, r'(baseline|contender)_per_shard\.get\("(min|median|max)"\)', r'\1_per_shard.get("\2", None)', count=6, regex=True),
+    V("s5 per-shard lines from a generator over (label, key)", "keep", _R, _SHARD_RE, _shard_generator(), regex=True),
+    [V("s5 per-shard: minimum of each race hoisted into a local", "keep", _R, '                baseline_per_shard.get("min"),\n                contender_per_shard.get("min"),\n', "                baseline_min,\n                contender_min,\n"),
+     V("", "keep", _R, '    def _report_total_time_per_shard(self, name, baseline_per_shard, contender_per_shard):\n        unit = "min"\n',
+       '    def _report_total_time_per_shard(self, name, baseline_per_shard, contender_per_shard):\n        unit = "min"\n        baseline_min = baseline_per_shard.get("min")\n        contender_min = contender_per_shard.get("min")\n')],
+    [V("s5 per-shard: hoisted minimum of the baseline defaults to 0", "break", _R, '                baseline_per_shard.get("min"),\n                contender_per_shard.get("min"),\n', "                baseline_min,\n                contender_min,\n", "O20.5"),
+     V("", "break", _R, '    def _report_total_time_per_shard(self, name, baseline_per_shard, contender_per_shard):\n        unit = "min"\n',
+       '    def _report_total_time_per_shard(self, name, baseline_per_shard, contender_per_shard):\n        unit = "min"\n        baseline_min = baseline_per_shard.get("min", 0)\n        contender_min = contender_per_shard.get("min")\n')],
 ]
